@@ -74,6 +74,12 @@ pub(crate) trait Sink: Send {
     async fn flush(&mut self) -> io::Result<()> {
         self.wait_writable().await
     }
+
+    /// Verification accessor: a plain (JSON) view of the sink's internal state, if it has one
+    #[cfg(trusttunnel_verif)]
+    fn verif_state(&self) -> Option<String> {
+        None
+    }
 }
 
 #[derive(Copy, Clone, PartialEq)]
